@@ -471,7 +471,9 @@ func (s c06scen) build() *c06env {
 				var m *response.MultiResponse
 				var err error
 				if s.base() == "g-batchf" {
-					m, err = d.SendCommandsFromFile(c06linesFile([]string{s.cmd, "show clock", s.cmd}))
+					lf := c06linesFile([]string{s.cmd, "show clock", s.cmd})
+					m, err = d.SendCommandsFromFile(lf)
+					_ = os.Remove(lf)
 				} else {
 					m, err = d.SendCommands([]string{s.cmd, "show clock", s.cmd})
 				}
@@ -668,7 +670,9 @@ func (s c06scen) build() *c06env {
 				var m *response.MultiResponse
 				var err error
 				if s.base() == "n-configf" {
-					m, err = d.SendConfigsFromFile(c06linesFile(lines))
+					lf := c06linesFile(lines)
+					m, err = d.SendConfigsFromFile(lf)
+					_ = os.Remove(lf)
 				} else {
 					m, err = d.SendConfigs(lines)
 				}
